@@ -72,6 +72,28 @@ impl Metadata {
         use std::os::unix::fs::PermissionsExt;
         Permissions::from_mode(if self.0.kind == Kind::Dir { 0o755 } else { 0o644 })
     }
+    // the `std::os::unix::fs::MetadataExt` accessors a maintainer might reach for
+    pub fn size(&self) -> u64 {
+        self.0.len
+    }
+    pub fn mtime(&self) -> i64 {
+        (self.0.mtime_ns / 1_000_000_000) as i64
+    }
+    pub fn mtime_nsec(&self) -> i64 {
+        (self.0.mtime_ns % 1_000_000_000) as i64
+    }
+    pub fn nlink(&self) -> u64 {
+        1
+    }
+    pub fn uid(&self) -> u32 {
+        1000
+    }
+    pub fn gid(&self) -> u32 {
+        1000
+    }
+    pub fn dev(&self) -> u64 {
+        1
+    }
     pub fn mode(&self) -> u32 {
         if self.0.kind == Kind::Dir {
             0o040_755
